@@ -240,6 +240,7 @@ static void run_det(int tier, long idx, vf_result *r)
     sc.sigma_nf = snf;
     sc.sigma_tr = str;
 
+    vf_note("step: unweighted reference run");
     run_cal(&sc, false, 0, 0, 0, false, 0, &plain, r);
     if (plain.rc != 0 || !plain.applied) {
 	snprintf(sig, sizeof(sig), "plain-failed:%s", tname);
@@ -248,6 +249,7 @@ static void run_det(int tier, long idx, vf_result *r)
 	goto done;
     }
     /* (1) exact data with the model */
+    vf_note("step: exact data with the error model");
     run_cal(&sc, true, gk, snf, str, false, 0, &weighted, r);
     if (weighted.rc != 0) {
 	snprintf(sig, sizeof(sig), "exact-rejected:%s", tname);
@@ -279,7 +281,9 @@ static void run_det(int tier, long idx, vf_result *r)
     for (int k = 0; k < sc.nstd; ++k) {
 	sc.displace_id = sc.std[k].id;
 	sc.displace_sigmas = 100.0;
+	vf_note("step: standard %d of %d displaced", k + 1, sc.nstd);
 	run_cal(&sc, true, gk, snf, str, false, 0, &bad, r);
+	vf_note("   -> rc %d errno %d %s", bad.rc, bad.err_no, bad.msg);
 	sc.displace_id = 0;
 	if (bad.rc == -1) {
 	    ++rejected;
